@@ -6,6 +6,7 @@ import (
 
 	"github.com/superfly/litefs/verifharness/core"
 	"github.com/superfly/litefs/verifharness/dbreplay"
+	"github.com/superfly/litefs/verifharness/sim"
 	"github.com/superfly/litefs/verifharness/t3"
 )
 
@@ -21,6 +22,7 @@ func main() {
 		{Name: "rb-3pg-3ops-exhaustive", Cfg: core.Pick(args, "MC_DBFile_rb.cfg", "MC_DBFile_rb.cfg"), Timeout: 10 * time.Minute, MaxKeep: core.Pick(args, 600, 0)},
 		{Name: "rb-beyond-3pg-3ops-exhaustive", Cfg: "MC_DBFile_rb_beyond.cfg", Timeout: 10 * time.Minute, MaxKeep: core.Pick(args, 500, 0)},
 		{Name: "rb-drop-recreate-3pg-4ops-exhaustive", Cfg: "MC_DBFile_drop.cfg", Timeout: 10 * time.Minute, MaxKeep: core.Pick(args, 300, 0)},
+		{Name: "rb-block-edges-3pg-3ops", Cfg: "MC_DBFile_rb_L3.cfg", Timeout: 10 * time.Minute, MaxKeep: core.Pick(args, 300, 0), Layouts: []sim.Layout{sim.L3(512), sim.L2(512)}},
 		{Name: "deep-simulation-4pg-8ops", Cfg: "MC_DBFile_sim.cfg", Simulate: true, Num: core.Pick(args, 40, 400), Depth: 200, Timeout: 10 * time.Minute, MaxKeep: core.Pick(args, 150, 3000)},
 	})
 }
